@@ -168,6 +168,7 @@ def run_shard_main(prop, tier, seed, spec_file, out_file):
 
         mod = load_check(prop)
         ctx = Ctx(prop, tier, seed, spec["shard"], spec)
+        ctx.count("shards_with_assertions_stripped" if not __debug__ else "shards_with_assertions_enabled")
         mon.start(REPO)
         try:
             if spec.get("kind") == "__witnesses__":
@@ -283,7 +284,8 @@ def run_shards(prop, tier, seed, specs, jobs, timeout):
             with open(sf, "w") as f:
                 json.dump(spec, f)
             p = subprocess.Popen(
-                [PY, "-B", "-m", "rt.harness", prop, "--tier", tier, "--shard-spec", sf, "--shard-out", of],
+                # every third shard runs with assertions stripped (-O): what the library promises must not rest on `assert`
+                [PY, "-B"] + (["-O"] if i % 3 == 2 and not os.environ.get("VERIF_NO_OPT") else []) + ["-m", "rt.harness", prop, "--tier", tier, "--shard-spec", sf, "--shard-out", of],
                 cwd=VERIF, env=env, stdout=subprocess.PIPE, stderr=subprocess.STDOUT,
             )
             running[i] = (p, of, time.time())
